@@ -4,6 +4,18 @@ import json, os, subprocess
 V = os.path.dirname(os.path.dirname(os.path.abspath(__file__)))
 
 CHECKS = {
+ "C06": dict(level="exploration", design="§3 C06",
+   text="Planted-absent-literal monitor: 300 k (quick) / 20 M (thorough) rules from the full-grammar generator (all four rule types, sets, optionals, ellipses, structures, variables, alphas, environment sets, condensed rules) get a reserved segment that no generated word contains planted as a mandatory element of every input alternative (insertion: of the context); whenever the real interpreter returns Ok the structural word (hook) must equal the input. The run also checks that the plant is what stops the rule (the unplanted rule changes the word in ~13 % of the cases, which is what is counted as non-trivial). Blank and comment-only lines are checked too.",
+   note="the plant is placed at the top level of the input / context, never inside a set or optional, so it is mandatory by construction; panics and budget exhaustion are recorded for C02, not judged here",
+   technique="invariant (output == input) runtime monitor over generated rules with a planted mandatory absent literal"),
+ "C07": dict(level="exploration", design="§3 C07",
+   text="Capture-identity monitor (200 k quick / 10 M thorough cases): identity rules through variables (`X1=1..Xk=k > 1..k`, k<=3, matrices, groups, [], %, structures, with generated environments) and through alphas (`[αF] > [αF]` for all features, nodes, length and stress, on matrices, groups and %) must leave the structural word unchanged; variables used in a context are checked against a neighbour-comparison reference: `A > B / X=1 _ 1` fires exactly between identical bundles, `% > [+stress] / %=1 _ 1` exactly between identical syllables, haplology `%=1 > * / 1_` deletes exactly syllables identical to their predecessor.",
+   note="known finding KF-C07-1 (stress alpha is one bit); X as a predicate in family (iii) is evaluated with the real matcher on a one-segment word, which C04 validates independently",
+   technique="identity / reference-comparison runtime monitor on the structural hook"),
+ "C08": dict(level="exploration", design="§3 C08",
+   text="Invariant walker on the hooked word after EVERY rule group: 300 k (quick) / 20 M (thorough) sequences of 1-6 rules (templates that delete, move and insert boundaries, syllables and structures, merge tones, remove and add place nodes; harvested rules; full-grammar rules) on generated words; checks >= 1 syllable, no empty syllable, tone <= 4 non-zero digits, no stray root/laryngeal bits, place never Some(0), no feature bits under an absent sub-node.",
+   note="invariants are evaluated on the internal Word through the hook; well-formedness of a place value as in C18",
+   technique="structural invariant monitor at a hook after every rule group"),
  "C11": dict(level="exploration", design="§3 C11",
    text="Differential monitor on the public API: for 60 k (quick) / 3 M (thorough) generated (rule list, word list) pairs, the result of run on the list is compared with run on every line alone (length, order, content), on a permutation / sub-list, and for multi-word lines with the single-space join of the per-word results; when lines fail, the list must fail with the error kind of the first failing line (parse-phase failures first). About a third of the generated lists contain failing lines.",
    note="public API only; error texts are never compared, only kinds; lists in which rule-syntax and word-syntax failures are mixed are counted, not judged",
